@@ -250,9 +250,10 @@ fn single_faults(rep: &mut Report, rng: &mut Rng, h: &mut History, g: &mut Gen, 
                 return false;
             }
             other => {
-                // accepts-invalid / refuses-valid / unspecified: C03/C04's business; this history cannot be continued
+                // accepts-invalid / refuses-valid / unspecified: C03/C04's business; start again from the accepted operations
                 rep.count(&format!("not-judged/{}/{}", f.name, other.class().split('/').next().unwrap_or("")));
-                return false;
+                *h = twin_of(ok_ops, milestone, shrink);
+                continue;
             }
         }
         let Some(after) = snapshot(&h.store) else {
@@ -261,12 +262,17 @@ fn single_faults(rep: &mut Report, rng: &mut Rng, h: &mut History, g: &mut Gen, 
         };
         rep.distinct(&format!("refused/{}", f.name));
         if let Some((cls, detail)) = leftover(&before, &after) {
+            // root cause recorded as a finding: annotate() resolves the target (inserting text selections), then inserts the
+            // data (creating sets and keys), then the annotation; a failure in a later step does not undo the earlier ones
+            let leak = leak_class(&before, &after);
+            let explained = matches!(f.bad, Op::Annotate(_)) && leak.split('+').all(|x| ["datasets", "keys", "data", "textselections"].contains(&x));
             rep.violation(
-                format!("C14/{}/leaves/{}", f.name, leak_class(&before, &after)),
+                format!("C14/{}/leaves/{}", f.name, if explained { "explained:earlier-steps-of-annotate-are-not-rolled-back".to_string() } else { leak.clone() }),
                 json!({"request": f.bad.to_json(), "error": r.outcome.to_json(), "first_difference": cls, "detail": detail, "history": h.replay_json()}),
             );
-            // the store and the model are out of step now
-            return false;
+            // the store and the model are out of step now: start again from the accepted operations
+            *h = twin_of(ok_ops, milestone, shrink);
+            continue;
         }
         // the corrected request behaves as if the failure never happened
         if let Some(good) = &f.good {
@@ -274,7 +280,8 @@ fn single_faults(rep: &mut Report, rng: &mut Rng, h: &mut History, g: &mut Gen, 
             rep.eval();
             if !matches!(r2.agreement, Agreement::Ok) {
                 rep.count(&format!("corrected-not-accepted/{}/{}", f.name, r2.agreement.class().split('/').next().unwrap_or("")));
-                return false;
+                *h = twin_of(ok_ops, milestone, shrink);
+                continue;
             }
             ok_ops.push(good.clone());
             let t = twin_of(ok_ops, milestone, shrink);
@@ -286,7 +293,8 @@ fn single_faults(rep: &mut Report, rng: &mut Rng, h: &mut History, g: &mut Gen, 
                             format!("C14/{}/corrected-call-differs-from-twin/{}", f.name, cls.split('/').take(3).collect::<Vec<_>>().join("/")),
                             json!({"request": f.bad.to_json(), "corrected": good.to_json(), "first_difference": cls, "detail": detail, "history": h.replay_json()}),
                         );
-                        return false;
+                        *h = twin_of(ok_ops, milestone, shrink);
+                        continue;
                     }
                 }
                 _ => rep.count("twin-not-observable"),
@@ -298,24 +306,22 @@ fn single_faults(rep: &mut Report, rng: &mut Rng, h: &mut History, g: &mut Gen, 
 
 /// batch entry points: annotate_from_iter, with_annotations (consumes the store), annotate_from_file, query ADD
 fn batch_fault(rep: &mut Report, rng: &mut Rng, h: &mut History, g: &mut Gen, workdir: &str, k: u64) {
-    // two valid requests and an invalid one in between / first / last
-    let mut valid: Vec<AnnReq> = Vec::new();
-    let mut scratch = h.model.clone();
-    for _ in 0..2 {
-        if let Some(Op::Annotate(r)) = g.gen_annotate(rng, &scratch) {
-            // later requests must not depend on earlier ones of the batch
-            let (p, _) = scratch.clone().apply(&Op::Annotate(r.clone()));
-            if matches!(p, Pred::Ok(_)) {
-                let _ = scratch.apply(&Op::Annotate(r.clone()));
-                valid.push(r);
-            }
-        }
-    }
-    if valid.len() < 2 {
-        return;
-    }
+    // two valid requests (everything referred to by id) and an invalid one first / in between / last
     let Some(res) = h.model.resources.values().next() else { return };
     let len = res.text.len();
+    let mut valid: Vec<AnnReq> = Vec::new();
+    for _ in 0..2 {
+        let (b, e) = crate::gen::gen_range(rng, len);
+        let set = match h.model.sets.values().next() {
+            Some(s) if rng.chance(1, 2) => s.id.clone(),
+            _ => g.fresh_id(rng, "s"),
+        };
+        valid.push(AnnReq {
+            id: Some(g.fresh_id(rng, "a")),
+            target: Some(SelReq::Text(Ref::Id(res.id.clone()), Off::simple(b, e))),
+            data: vec![DataReq { set: Ref::Id(set), id: Ref::None, key: Ref::Id(g.fresh_id(rng, "k")), value: DataValue::String("batch".into()) }],
+        });
+    }
     let bad = AnnReq { id: None, target: Some(SelReq::Text(Ref::Id(res.id.clone()), Off::simple(len + 1, len + 2))), data: vec![DataReq { set: Ref::Id(g.fresh_id(rng, "s")), id: Ref::None, key: Ref::Id("kb".into()), value: DataValue::Int(1) }] };
     let pos = rng.below(3);
     let mut batch = valid.clone();
@@ -342,12 +348,11 @@ fn batch_fault(rep: &mut Report, rng: &mut Rng, h: &mut History, g: &mut Gen, wo
             r
         }
         _ => {
-            // ADD query whose data assignment names a data set by a handle-less id is always valid; make the target invalid instead:
-            // TARGET ?x with an OFFSET beyond the selected text
-            let text = format!("ADD ANNOTATION WITH DATA \"{}\" \"kq\" \"v\"; TARGET ?x OFFSET {} {}; {{ SELECT TEXT ?x WHERE RESOURCE \"{}\" OFFSET 0 {}; }}", g.fresh_id(rng, "s"), len + 5, len + 6, res.id, len.min(1));
-            if res.id.contains('"') || res.id.contains('\\') {
+            // an ADD query is a batch over the rows of its sub-query: with a fixed ID the second row fails on the duplicate id
+            if h.model.anns.len() < 2 || res.id.contains('"') || res.id.contains('\\') {
                 return;
             }
+            let text = format!("ADD ANNOTATION WITH ID \"{}\"; DATA \"{}\" \"kq\" \"v\"; TARGET ?x; {{ SELECT ANNOTATION ?x }}", g.fresh_id(rng, "a"), g.fresh_id(rng, "s"));
             guard(|| match Query::try_from(text.as_str()) {
                 Ok(q) => h.store.query_mut(q).map(|_| ()).map_err(|e| format!("{}", e)),
                 Err(e) => Err(format!("parse: {}", e)),
@@ -363,10 +368,20 @@ fn batch_fault(rep: &mut Report, rng: &mut Rng, h: &mut History, g: &mut Gen, wo
                 return;
             };
             rep.distinct(&format!("batch-refused/{}/{}", api, posname));
-            if let Some((cls, detail)) = leftover(&before, &after) {
+            rep.count(&format!("batch-refused/{}/{}", api, normalise_msg(&e.chars().take(70).collect::<String>())));
+            if let Some((first, detail)) = leftover(&before, &after) {
+                let leak = leak_class(&before, &after);
+                let cls = if leak.split('+').any(|x| x == "annotations") {
+                    "explained:items-before-the-invalid-one-stay".to_string()
+                } else if leak.split('+').all(|x| ["datasets", "keys", "data", "textselections"].contains(&x)) {
+                    "explained:earlier-steps-of-annotate-are-not-rolled-back".to_string()
+                } else {
+                    leak.clone()
+                };
+                let _ = posname;
                 rep.violation(
-                    format!("C14/{}/invalid-item-{}/leaves/{}", api, posname, leak_class(&before, &after)),
-                    json!({"batch": batch.iter().map(|b| b.to_json()).collect::<Vec<_>>(), "error": e, "first_difference": cls, "detail": detail, "history": h.replay_json()}),
+                    format!("C14/{}/leaves/{}", api, cls),
+                    json!({"batch": batch.iter().map(|b| b.to_json()).collect::<Vec<_>>(), "error": e, "first_difference": first, "left_behind": leak, "detail": detail, "history": h.replay_json()}),
                 );
             }
         }
@@ -402,7 +417,13 @@ fn req_json(r: &AnnReq) -> Option<Value> {
         if !matches!(d.id, Ref::None) {
             return None;
         }
-        data.push(json!({"@type": "AnnotationData", "set": id(&d.set)?, "key": id(&d.key)?, "value": value_json(&d.value)}));
+        let value = match &d.value {
+            DataValue::String(v) => json!({"@type": "String", "value": v}),
+            DataValue::Int(v) => json!({"@type": "Int", "value": v}),
+            DataValue::Bool(v) => json!({"@type": "Bool", "value": v}),
+            _ => json!({"@type": "Null"}),
+        };
+        data.push(json!({"@type": "AnnotationData", "set": id(&d.set)?, "key": id(&d.key)?, "value": value}));
     }
     let mut o = json!({"@type": "Annotation", "target": sel(r.target.as_ref()?)?, "data": data});
     if let Some(i) = &r.id {
@@ -449,9 +470,10 @@ pub fn run(p: &Params, rep: &mut Report) {
             continue;
         }
         let cont = single_faults(rep, &mut rng, &mut h, &mut g, &mut ok_ops, milestone, shrink, 10);
-        if cont {
-            batch_fault(rep, &mut rng, &mut h, &mut g, &p.workdir, k);
+        if !cont {
+            h = twin_of(&ok_ops, milestone, shrink);
         }
+        batch_fault(rep, &mut rng, &mut h, &mut g, &p.workdir, k);
     }
     let _ = (execute, Outcome::Ok(None));
 }
